@@ -574,3 +574,117 @@ def boxed_layer_params(case, ctx):
           'from their raw arrays')
   ctx.note(labels=[case['layer'], 'logical' if case['logical'] else
                    'partitioned'], nontrivial=nontrivial)
+
+
+# ----------------------------------------------------------------------------
+# variables whose value is a pytree of boxes (and raw leaves) that user code
+# assigns to: the boxes, and with them the axis names, survive the assignment
+# and get the stacking axis of a surrounding scan
+_AB, _AF = 2, 3
+
+
+def _assigned_init(form):
+  def init():
+    k = nn.Partitioned(jnp.zeros((_AB, _AF)), names=('batch', 'feat'))
+    v = nn.Partitioned(jnp.zeros((_AF,)), names=('feat',))
+    # (rank 1, so that stacking along axis 1 is legal for every leaf)
+    s = jnp.zeros((2,), jnp.int32)
+    return {'single': k, 'all': {'k': k, 'v': v}, 'mixed': {'k': k, 'step': s},
+            'tuple': (k, s), 'raw_first': {'a': s, 'k': k, 'v': v}}[form]
+  return init
+
+
+class _AssignLayer(nn.Module):
+  form: str = 'single'
+  assigns: int = 1
+
+  @nn.compact
+  def __call__(self, c, _):
+    cache = self.variable('cache', 'kv', _assigned_init(self.form))
+    for _i in range(self.assigns):
+      old = cache.value          # unboxed view
+      cache.value = jax.tree_util.tree_map(
+          lambda a: a + jnp.sum(c).astype(a.dtype) + 1, old)
+    return c * 2.0, None
+
+
+class _AssignStack(nn.Module):
+  form: str = 'single'
+  assigns: int = 1
+  length: int = 2
+  axis: int = 0
+  scanned: bool = True
+
+  @nn.compact
+  def __call__(self, x):
+    if not self.scanned:
+      return _AssignLayer(self.form, self.assigns, name='l')(x, None)[0]
+    sc = nn.scan(_AssignLayer, variable_axes={'cache': self.axis},
+                 split_rngs={'params': False}, length=self.length,
+                 metadata_params={nn.PARTITION_NAME: 'layers'})
+    return sc(self.form, self.assigns, name='l')(x, None)[0]
+
+
+@clause('assigned_boxed_trees',
+        strategy=lambda: st.fixed_dictionaries({
+            'form': st.sampled_from(['single', 'all', 'mixed', 'tuple',
+                                     'raw_first']),
+            'assigns': st.integers(0, 2), 'length': st.integers(1, 3),
+            'axis': st.integers(0, 1), 'scanned': st.booleans(),
+            'apply_too': st.booleans()}),
+        quick=60, thorough=1500, quick_shards=6, thorough_shards=16,
+        shrink=False,
+        rule='a Linen variable whose value is one Partitioned box, a dict / '
+        'tuple of boxes, or a container mixing boxes with raw arrays, '
+        'assigned 0-2 times per call with an unboxed tree of the same '
+        'structure, standalone or under nn.scan stacking it along axis 0 / 1 '
+        'with a partition name (init, optionally followed by a mutable '
+        'apply): every declared box is still a box, its names are the '
+        'declared names (+ the partition name at the stacking axis), one per '
+        'array dimension, and nn.get_partition_spec returns them; raw leaves '
+        'stay raw; non-trivial = assigned and the tree mixes boxes and raw '
+        'leaves')
+def assigned_boxed_trees(case, ctx):
+  form, L_, ax = case['form'], case['length'], case['axis']
+  mod = _AssignStack(form, case['assigns'], L_, ax, case['scanned'])
+  x = jnp.ones((2,), jnp.float32)
+  with sut('init'):
+    V = unfreeze(mod.init(jax.random.key(0), x))
+  if case['apply_too']:
+    with sut('apply(mutable=cache)'):
+      _, upd = mod.apply(V, x, mutable=['cache'])
+    V = unfreeze(upd)
+  tree = V['cache']['l']['kv']
+  declared = _assigned_init(form)()
+  is_box = lambda t: isinstance(t, meta.AxisMetadata)
+  got = jax.tree_util.tree_leaves(tree, is_leaf=is_box)
+  want = jax.tree_util.tree_leaves(declared, is_leaf=is_box)
+  require(len(got) == len(want) and jax.tree_util.tree_structure(
+      tree, is_leaf=is_box) == jax.tree_util.tree_structure(
+          declared, is_leaf=is_box), lambda: 'variable tree changed structure:'
+          f' {jax.tree_util.tree_structure(tree, is_leaf=is_box)}')
+  spec = jax.tree_util.tree_leaves(
+      nn.get_partition_spec(V)['cache']['l']['kv'],
+      is_leaf=lambda t: isinstance(t, P))
+  for i, (g, w) in enumerate(zip(got, want)):
+    if not is_box(w):
+      require(not is_box(g), lambda: f'raw leaf {i} became {type(g).__name__}')
+      continue
+    require(is_box(g), lambda: f'leaf {i} of the variable (form {form}) was '
+            f'declared as Partitioned{tuple(w.names)} but is a bare '
+            f'{type(g).__name__} after {case["assigns"]} assignment(s): the '
+            'axis names were dropped')
+    names = list(w.names)
+    shape = list(w.value.shape)
+    if case['scanned']:
+      names.insert(ax, 'layers')
+      shape.insert(ax, L_)
+    require(tuple(g.names) == tuple(names) and tuple(g.value.shape) == tuple(
+        shape), lambda: f'leaf {i}: names {g.names} on an array of shape '
+            f'{g.value.shape}, expected {tuple(names)} on {tuple(shape)}')
+    require(spec[i] == P(*names), lambda: f'leaf {i}: get_partition_spec '
+            f'gives {spec[i]}, expected {P(*names)}')
+  mixed = form in ('mixed', 'tuple', 'raw_first')
+  ctx.note(labels=[form, f'assign{case["assigns"]}',
+                   'scan' if case['scanned'] else 'plain'],
+           nontrivial=mixed and case['assigns'] >= 1)
